@@ -19,7 +19,8 @@
                  object that refers to one (task.call, channelManager.successors, manager.handlers);
      arg         shared data handed to a function that writes through that parameter;
      link        a per-run object one of whose fields is made to refer to shared data;
-     pkgvar      any mention of a package-level variable;
+     pkgvar      any mention of a package-level variable other than an error value made by errors.New /
+                 fmt.Errorf (sentinels: compared with errors.Is, never written);
 
    and where the fields of the two per-run managers come from.  Everything the extractor finds on
    the unchanged tree is reviewed below ([reviewed_effects]); Proofs/GenAgreeC09.v proves that what it
@@ -80,9 +81,8 @@ Definition reviewed_effects : list (effect * verdict) := [
   (Eff "callbacks:newManager"%string "link"%string CRecord "manager.handlers <- param(...Handler)"%string, ReadOnly);
   (Eff "callbacks:newManager"%string "link"%string CRecord "manager.runInfo <- param(*RunInfo)"%string, ReadOnly);
   (Eff "callbacks:newManager"%string "pkgvar"%string CPkg "GlobalHandlers"%string, ReadOnly);
-  (Eff "concatStreamReader"%string "pkgvar"%string CPkg "emptyStreamConcatErr"%string, ReadOnly);
   (Eff "graphNode.beforeChildGraphCompile$closure"%string "assign"%string CRecord "captured(parameter key2SubGraphs)[]"%string, BuildTime);
-  (Eff "isInterruptError"%string "pkgvar"%string CPkg "InterruptAndRerun"%string, ReadOnly);
+  (Eff "host:addHostAgent$closure"%string "link"%string CParam "state.msgs <- param([]*schema.Message)"%string, ReadOnly);
   (Eff "runner.calculateBranch"%string "assign"%string CParam "param([]any)[]"%string, CallersLocal);
   (Eff "runner.createTasks"%string "link"%string CRecord "task.call <- runner.chanSubscribeTo[]"%string, ReadOnly);
   (Eff "runner.handleInterrupt"%string "link"%string CCaptured "checkpoint.State <- ctx.Value().state"%string, ReadOnly);
@@ -96,10 +96,10 @@ Definition reviewed_effects : list (effect * verdict) := [
   (Eff "runner.resolveInterruptCompletedTasks"%string "append"%string CParam "param(*[]string)"%string, CallersLocal);
   (Eff "runner.resolveInterruptCompletedTasks"%string "assign"%string CParam "param(*[]string)"%string, CallersLocal);
   (Eff "runner.resolveInterruptCompletedTasks"%string "assign"%string CRecord "param(map[string]*subGraphInterruptError)[]"%string, CallersLocal);
-  (Eff "runner.resolveInterruptCompletedTasks"%string "pkgvar"%string CPkg "InterruptAndRerun"%string, ReadOnly);
   (Eff "runner.restoreTasks"%string "link"%string CRecord "task.call <- runner.chanSubscribeTo[]"%string, ReadOnly);
-  (Eff "runner.run"%string "pkgvar"%string CPkg "ErrExceedMaxSteps"%string, ReadOnly);
+  (Eff "runner.restoreTasks"%string "link"%string CParam "task.option <- param(map[string][]any)[]"%string, ReadOnly);
   (Eff "uniqueKeys"%string "append"%string CParam "param([]string)[:]"%string, CallersLocal)
+
 ].
 
 Definition expected_effects : list effect := map fst reviewed_effects.
